@@ -1,5 +1,5 @@
 SPECIFICATION Spec
-CONSTANTS MaxCalls = 5  MaxIO = 10  TwoFaults = TRUE  MaxPolicyChanges = 0  Gen = FALSE
+CONSTANTS MaxCalls = 5  MaxIO = 10  TwoFaults = TRUE  MaxPolicyChanges = 0  Gen = FALSE  FreshTriad = TRUE
 INVARIANT NoViolation
 INVARIANT OnlyLibraryFailures
 INVARIANT CloseResetsNoHist
